@@ -278,6 +278,28 @@ Definition file_lines (text : str) : list str :=
   end.
 Definition flat_load (text : str) : res (list (str * str)) := flat_lines (tl (file_lines text)).
 
+(* ---- dbi.FlatfileMapping.add: an IN-PLACE writer (no AtomicFile): the record
+   line is appended at the end of the file and the next-id header at offset 0 is
+   rewritten (fixed width).  Two writes reach the kernel; their order is read
+   from the source (regenerated table).  A flat file is abstracted to its header
+   and its records. ---- *)
+Record flat := Flat { fl_next : N; fl_recs : list (N * str) }.
+Inductive feff : Type := SetNext (n : N) | AppendRec (id : N) (s : str).
+Definition fapply1 (st : flat) (e : feff) : flat :=
+  match e with
+  | SetNext n => Flat n (fl_recs st)
+  | AppendRec i s => Flat (fl_next st) (fl_recs st ++ [(i, s)])
+  end.
+Definition fapply (es : list feff) (st : flat) : flat := fold_left fapply1 es st.
+Definition add_effects (st : flat) (s : str) : list feff :=
+  let id := fl_next st in
+  if gen.T17.FLAT_ADD_NEXT_ID_FIRST
+  then [SetNext (id + 1); AppendRec id s]
+  else [AppendRec id s; SetNext (id + 1)].
+(* every id in the file is below the next id: add() can never hand out an id twice *)
+Definition flat_ok (st : flat) : bool :=
+  forallb (fun r => N.ltb (fst r) (fl_next st)) (fl_recs st).
+
 (* mktemp() returns a hex digest: the contract the naming theorems need *)
 Definition hexdigit (c : N) : bool :=
   (N.leb 48 c && N.leb c 57) || (N.leb 97 c && N.leb c 102).
@@ -336,6 +358,7 @@ Fixpoint states_at (fuel i : nat) (es : list eff) (f : fs) (ks : list nat) (out 
          state = (target-as-read temp backup link-target link-alive), each () or (bytes); temp is (length) when full_temp = 0
    op 3: same input, states computed as  apply (firstn k es) f0
    op 4: (fn tok now cfg fs0 ops chunk k inited full_temp) -> (effects-of-the-interrupted-flush final-state)
+   op 6: (next recs record k) -> flat file (next recs ok) after the first k kernel writes of FlatfileMapping.add
    op 5: text -> FlatfileMapping records ((id record) ...) or an exception
    op 1: (a b) -> path_join a b ; op 2: s -> basename s *)
 Definition vState (full : bool) (cfg : config) (fn t b : path) (f : fs) : value :=
@@ -375,6 +398,9 @@ Definition run (v : value) : value :=
   | 0 => run_session false p
   | 3 => run_session true p
   | 4 => run_unwind p
+  | 6 => let st := Flat (gN (nth_v 0 p)) (map (fun r => (gN (nth_v 0 r), gS (nth_v 1 r))) (gL (nth_v 1 p))) in
+         let st' := fapply (firstn (N.to_nat (gN (nth_v 3 p))) (add_effects st (gS (nth_v 2 p)))) st in
+         L [vN (fl_next st'); L (map (fun r => L [vN (fst r); vS (snd r)]) (fl_recs st')); vB (flat_ok st')]
   | 5 => vR (fun l => L (map (fun kv => L [vS (fst kv); vS (snd kv)]) l)) (flat_load (gS p))
   | 1 => vS (path_join (gS (nth_v 0 p)) (gS (nth_v 1 p)))
   | 2 => vS (basename (gS p))
